@@ -1,1 +1,70 @@
-From TV Require Import Py.Prelude Model.Schema Model.ImplInput Model.ImplExec.
+(* C01 — request results equal the GraphQL execution algorithm's result.
+   Statements only.  Proved here about the implementation model (Model/ImplExec.v, tied to /repo
+   by the correspondence check): the accumulator-passing collect_fields computes the grouping
+   of the specification's CollectFields traversal; response keys appear once, in
+   first-appearance order, each with exactly the fields selecting it (merged sub-selections).
+   The equality of the response DATA with the specification's ExecuteSelectionSet /
+   CompleteValue transcription (Model/SpecExec.v, spec_execute_operation) is evaluated by the
+   check on every observation of the real engine (predicate spec_verdict);
+   PARTIAL: its proof for the model (C01_data_refines_spec) is in Proofs/ExecRefine.v when present. *)
+From Coq Require Import ZArith List String Bool.
+From TV Require Import Py.Prelude Model.Schema Model.ImplInput Model.ImplExec Model.SpecExec
+  Proofs.CollectRefine.
+Import ListNotations.
+Open Scope string_scope.
+
+Section C01.
+Variable sch : schema.
+Variable doc : document.
+Variable vs : vars.
+
+(* CollectFields: shared ordered dict + visited set  =  grouping of the ordered traversal *)
+Theorem C01_collect_fields_refines_spec fuel rt sels acc visited :
+  collect_fields sch doc vs fuel rt sels acc visited =
+  match spec_collect sch doc vs fuel rt sels visited with
+  | Some (flat, v) => Some (group_fields flat acc, v)
+  | None => None
+  end.
+Proof. exact (collect_fields_refines_spec sch doc vs fuel rt sels acc visited). Qed.
+
+(* every response key appears once ... *)
+Theorem C01_response_keys_nodup flat : NoDup (keys (group_fields flat [])).
+Proof. apply group_fields_nodup. constructor. Qed.
+
+(* ... in first-appearance order ... *)
+Theorem C01_response_keys_first_appearance flat :
+  keys (group_fields flat []) = first_appearance (map fst flat) [].
+Proof. exact (group_fields_order flat []). Qed.
+
+(* ... holding exactly the fields selected under that key, in document order (merged
+   sub-selections included) *)
+Theorem C01_group_holds_all_fields flat k :
+  nodes_of k (group_fields flat []) = map snd (filter (fun kn => String.eqb k (fst kn)) flat).
+Proof. apply (group_fields_nodes flat [] k). constructor. Qed.
+
+End C01.
+
+(* non-vacuity: a fragment spread twice, an alias colliding with a field name, a merged key *)
+Definition exs : schema :=
+  {| types := [("Query", DObject [] [ {| fd_name := "a"; fd_type := TNamed "T"; fd_args := [] |} ]);
+               ("T", DObject [] [ {| fd_name := "x"; fd_type := TNamed "Int"; fd_args := [] |};
+                                  {| fd_name := "y"; fd_type := TNamed "Int"; fd_args := [] |} ])];
+     query_type := "Query"; mutation_type := None; subscription_type := None; scalars := fun _ => None |}.
+Definition exd : document :=
+  {| operations := [];
+     fragments := [ {| fr_name := "F"; fr_type := "T"; fr_dirs := [];
+                       fr_sels := [SField (1,1)%Z None "y" [] [] []; SField (1,2)%Z (Some "x") "y" [] [] []];
+                       fr_loc := (1,0)%Z |} ] |}.
+Example C01_nonvacuous :
+  match collect_fields exs exd [] 5 "T"
+          [SField (2,1)%Z None "x" [] [] []; SSpread (2,2)%Z "F" []; SSpread (2,3)%Z "F" [];
+           SInline (2,4)%Z (Some "T") [] [SField (2,5)%Z None "y" [] [] []]] [] [] with
+  | Some (fs, visited) => (keys fs, map (fun g => List.length (snd g)) fs, visited)
+  | None => ([], [], [])
+  end = (["x"; "y"], [2%nat; 2%nat], ["F"]).
+Proof. vm_compute. reflexivity. Qed.
+
+Print Assumptions C01_collect_fields_refines_spec.
+Print Assumptions C01_response_keys_nodup.
+Print Assumptions C01_response_keys_first_appearance.
+Print Assumptions C01_group_holds_all_fields.
